@@ -82,6 +82,8 @@ func runPresence(c *Ctx) {
 func runMerge(c *Ctx) {
 	coreHeader(c, 1)
 	keyScratchHistories(c)
+	longInternHistories(c)
+	reusedElementSlices(c)
 	vg := &ValGen{r: c.rng}
 	n := scale(c, 200, 5000)
 	for i := 0; i < n; i++ {
@@ -174,16 +176,188 @@ func keyScratchHistories(c *Ctx) {
 				scratch := reflect.New(t)
 				c.crumb(fmt.Sprintf("key-scratch damaged decode type=%s data=%x", t, data[:cut]))
 				safely(func() error { return tc.P.Unmarshal(data[:cut], scratch.Interface()) })
-				// now valid data whose keys have zero fields, into a fresh variable
-				v := vg.Value(t, 2)
-				d2, err := tc.P.Marshal(nil, v.Addr().Interface())
-				if err != nil || len(d2) == 0 {
-					continue
+				// now valid data whose keys have zero fields, into a fresh variable: a random value, and
+				// values built to have an all-zero key and keys with each single field left zero (whatever
+				// a scratch key kept from the damaged decode shows in them)
+				vals := []reflect.Value{vg.Value(t, 2)}
+				vals = append(vals, zeroKeyValues(t)...)
+				for _, v := range vals {
+					d2, err := tc.P.Marshal(nil, v.Addr().Interface())
+					if err != nil || len(d2) == 0 {
+						continue
+					}
+					c.addDec(tc, d2, reflect.New(t).Elem(), "key-scratch", "key-scratch/"+shapeClass(t, 2), true)
+					// (only the first valid decode after the damaged one meets the scratch it left behind)
+					safely(func() error { return tc.P.Unmarshal(data[:cut], reflect.New(t).Interface()) })
 				}
-				c.addDec(tc, d2, reflect.New(t).Elem(), "key-scratch", "key-scratch/"+shapeClass(t, 2), true)
 			}
 		}
 	}
+}
+
+// a decode into a fresh variable must not depend on how much the instance has decoded before:
+// an interning table that has seen thousands of distinct values (any internal limit, resize or
+// replacement) gives the same result as a new instance
+type InternHist struct {
+	ID int    `plenc:"1"`
+	S  string `plenc:"2,intern"`
+	T  string `plenc:"3"`
+}
+
+func longInternHistories(c *Ctx) {
+	for _, n := range []int{300, 1100, scale(c, 2300, 9000)} {
+		used := newInstance(Cfg{})
+		for i := 0; i < n; i++ {
+			v := InternHist{ID: i, S: fmt.Sprintf("seen-%06d", i), T: "t"}
+			data, err := used.Marshal(nil, &v)
+			if err != nil {
+				c.native = append(c.native, NativeViolation{Case: "long intern history", What: err.Error(), Class: "marshal-fails"})
+				return
+			}
+			var out InternHist
+			if err := used.Unmarshal(data, &out); err != nil || out != v {
+				c.native = append(c.native, NativeViolation{Case: fmt.Sprintf("long intern history: decode %d of %d distinct interned values on one instance, data=%x", i, n, data), Class: "history-dependent-decode",
+					What: fmt.Sprintf("decoded %+v, want %+v (%v)", out, v, err)})
+				return
+			}
+		}
+		for k := 0; k < 5; k++ {
+			v := InternHist{ID: -k, S: fmt.Sprintf("never seen before %d", k), T: "u"}
+			data, _ := used.Marshal(nil, &v)
+			var a, b InternHist
+			e1 := used.Unmarshal(data, &a)
+			e2 := newInstance(Cfg{}).Unmarshal(data, &b)
+			if e1 != nil || e2 != nil || a != b || b != v {
+				c.native = append(c.native, NativeViolation{Case: fmt.Sprintf("fresh decode after %d distinct interned values on the instance, data=%x", n, data), Class: "history-dependent-decode",
+					What: fmt.Sprintf("the used instance decodes %+v, a new instance %+v (%v %v)", a, b, e1, e2)})
+				return
+			}
+		}
+		c.count("long_intern_histories")
+	}
+}
+
+
+// slices decoded into targets whose backing array is re-used: every element kind whose codec
+// MERGES into what it finds (pointers, structs, maps, nested slices) next to those that overwrite;
+// the prior elements are fully populated, the new ones are zero or have a single field set, and
+// the target is longer than, as long as, or (with spare capacity) shorter than the data
+func reusedElementSlices(c *Ctx) {
+	elems := []reflect.Type{
+		reflect.TypeOf(&Inner{}), reflect.TypeOf(Inner{}), reflect.TypeOf((**Inner)(nil)), reflect.TypeOf(""), reflect.TypeOf((*string)(nil)),
+		tBytes, tTime, reflect.TypeOf((*time.Time)(nil)), reflect.TypeOf(&KeyS{}), reflect.TypeOf(map[string]int{}), reflect.TypeOf((*int)(nil)),
+		reflect.TypeOf(int64(0)), reflect.TypeOf(float64(0)),
+	}
+	for _, et := range elems {
+		for _, wrapped := range []bool{false, true} {
+			st := reflect.SliceOf(et)
+			t := st
+			if wrapped {
+				t = reflect.StructOf([]reflect.StructField{{Name: "L", Type: st, Tag: `plenc:"1"`}, {Name: "N", Type: reflect.TypeOf(0), Tag: `plenc:"2"`}})
+			}
+			for _, cfg := range []Cfg{{}, {ProtoArrays: true}} {
+				if cfg.ProtoArrays && (protoUnsafe(t) || !wrapped) {
+					continue
+				}
+				tc := newTypeCase(t, cfg)
+				if _, err := tc.P.CodecForType(t); err != nil {
+					continue
+				}
+				mk := func(n int, full bool, spare int) reflect.Value {
+					sl := reflect.MakeSlice(st, n, n+spare)
+					for i := 0; i < n; i++ {
+						e := sl.Index(i)
+						if full {
+							fillFull(e, 3)
+							continue
+						}
+						// sparse: a present pointer / struct with at most one field set
+						x := e
+						for x.Kind() == reflect.Ptr {
+							x.Set(reflect.New(x.Type().Elem()))
+							x = x.Elem()
+						}
+						if x.Kind() == reflect.Struct && x.Type() != tTime && i%2 == 1 {
+							fillFull(x.Field(0), 1)
+						}
+					}
+					v := reflect.New(t).Elem()
+					if wrapped {
+						v.Field(0).Set(sl)
+					} else {
+						v.Set(sl)
+					}
+					return v
+				}
+				for _, nd := range []int{1, 2, 3} {
+					d := mk(nd, false, 0)
+					data, err := tc.P.Marshal(nil, d.Addr().Interface())
+					if err != nil {
+						continue
+					}
+					for _, np := range []int{0, 1, 3, 5} {
+						for _, spare := range []int{0, 4} {
+							prior := mk(np, true, spare)
+							c.addDec(tc, data, prior, "reused-element-slice", fmt.Sprintf("reused-elems/%s/%v/%s", et, wrapped, cfg), true)
+						}
+					}
+				}
+			}
+		}
+	}
+}
+
+// zeroKeyValues: values of a map type (or a struct with one map field) with struct keys, whose keys
+// have all fields zero, or exactly one field non-zero
+func zeroKeyValues(t reflect.Type) []reflect.Value {
+	mt := t
+	wrap := func(m reflect.Value) reflect.Value { return m }
+	if t.Kind() == reflect.Struct && t.NumField() == 1 && t.Field(0).Type.Kind() == reflect.Map {
+		mt = t.Field(0).Type
+		wrap = func(m reflect.Value) reflect.Value {
+			v := reflect.New(t).Elem()
+			v.Field(0).Set(m)
+			return v
+		}
+	}
+	if mt.Kind() != reflect.Map {
+		return nil
+	}
+	kt := mt.Key()
+	isPtr := kt.Kind() == reflect.Ptr
+	if isPtr {
+		kt = kt.Elem()
+	}
+	if kt.Kind() != reflect.Struct {
+		return nil
+	}
+	mkKey := func(set int) reflect.Value {
+		k := reflect.New(kt).Elem()
+		if set >= 0 {
+			fillFull(k.Field(set), 1)
+		}
+		if isPtr {
+			p := reflect.New(kt)
+			p.Elem().Set(k)
+			return p
+		}
+		return k
+	}
+	var out []reflect.Value
+	for set := -1; set < kt.NumField(); set++ {
+		if set >= 0 && !kt.Field(set).IsExported() {
+			continue
+		}
+		m := reflect.MakeMap(mt)
+		val := reflect.New(mt.Elem()).Elem()
+		fillFull(val, 2)
+		m.SetMapIndex(mkKey(set), val)
+		w := wrap(m)
+		a := reflect.New(t).Elem()
+		a.Set(w)
+		out = append(out, a)
+	}
+	return out
 }
 
 // ---------------- C03: schema evolution ----------------
